@@ -2,6 +2,7 @@ package core
 
 import (
 	"fmt"
+	"go/token"
 	"go/types"
 	"sort"
 	"strings"
@@ -93,6 +94,25 @@ func LockOpOf(call ssa.CallInstruction) (LockOp, bool) {
 		fld := structField(fa.X.Type(), fa.Field)
 		if fld != nil {
 			return LockOp{LockClass{ownerName(fa.X.Type()), fld.Name()}, kind}, true
+		}
+	}
+	// a mutex held by pointer in a struct field (mu *sync.Mutex; x.mu.Lock()): the class is
+	// that field, whichever load of it the call happens to use
+	if ld, ok := recv.(*ssa.UnOp); ok && ld.Op == token.MUL {
+		if fa, ok := Strip(ld.X).(*ssa.FieldAddr); ok {
+			if fld := structField(fa.X.Type(), fa.Field); fld != nil {
+				return LockOp{LockClass{ownerName(fa.X.Type()), fld.Name()}, kind}, true
+			}
+		}
+		if f, ok := Strip(ld.X).(*ssa.Field); ok {
+			if st, ok := f.X.Type().Underlying().(*types.Struct); ok && f.Field < st.NumFields() {
+				return LockOp{LockClass{ownerName(f.X.Type()), st.Field(f.Field).Name()}, kind}, true
+			}
+		}
+	}
+	if f, ok := recv.(*ssa.Field); ok {
+		if st, ok := f.X.Type().Underlying().(*types.Struct); ok && f.Field < st.NumFields() {
+			return LockOp{LockClass{ownerName(f.X.Type()), st.Field(f.Field).Name()}, kind}, true
 		}
 	}
 	// a mutex that is not a struct field (local, global): class by printed value
